@@ -23,6 +23,7 @@ import threading
 from ..core import BUILD, hx, parallel_map, unhxs
 
 DRIVERS = ["drv_opts"]
+GENERATED = ["OptionsTables"]
 
 # ------------------------------------------------------------------ probe options
 # kind: how show-config renders the value. Only options that `set_options!` assigns through
@@ -444,6 +445,8 @@ def family_sources(tier_thorough):
         for mask in range(1 << len(kinds)):
             on = {k for i, k in enumerate(kinds) if mask >> i & 1}
             modes = ["cli-ab", "cli-ba", "main-feat", "env-plus+flag", "env-replace", "flag-main"]
+            if not tier_thorough and probe not in ("file-modified-label", "file-style"):
+                modes = ["cli-ab", "main-feat", "flag-main"]      # quick: all 6 ways for two probes only
             for mode in modes:
                 if not ({"custom", "builtin"} & on) and mode != "cli-ab":
                     continue
@@ -697,6 +700,29 @@ def family_nogitconfig(thorough):
                 c["config"] = None
                 c["params"] += [["tabs", "4"]]
             c["family"] = "no-gitconfig/" + name + ("/config" if with_config else "/bare")
+            out.append(c)
+    return out
+
+
+def family_env(thorough):
+    """DELTA_FEATURES without '+' replaces --features and [delta] features; with '+' adds."""
+    out = []
+    for env in ("a", "", "+", "+a", "navigate", "+navigate"):
+        for where in ("cli", "main", "both", "params"):
+            c = base_cfg()
+            c["env_features"] = env
+            add_section(c, "a", [("file-added-label", "Pa"), ("right-arrow", "Aa")])
+            add_section(c, "zz", [("file-renamed-label", "Rzz"), ("right-arrow", "Azz")])
+            add_section(c, "yy", [("file-removed-label", "Ryy"), ("right-arrow", "Ayy")])
+            if where in ("cli", "both"):
+                c["features"] = "zz"
+            if where in ("main", "both"):
+                c["config"]["main"].append(["features", "yy"])
+            if where == "params":
+                c["params"].append(["features", "yy"])
+            c["probes"] = ["file-added-label", "file-renamed-label", "file-removed-label", "right-arrow",
+                           "file-modified-label", "navigate"]
+            c["family"] = f"env/{env or 'empty'}/{where}"
             out.append(c)
     return out
 
@@ -974,15 +1000,17 @@ def unexpanded_matches(c, ob, defaults, impl):
 
 def run(ctx, rep):
     rep.rule = ("exhaustive small-scope lattice: (1) one probe option of each type x every subset of {command line, "
-                "[delta], GIT_CONFIG_PARAMETERS, custom feature, builtin feature} x 6 ways of enabling the features x "
+                "[delta], GIT_CONFIG_PARAMETERS, custom feature, builtin feature} x 6 ways of enabling the features (quick: 6 ways for the string and the style probe, 3 for the others) x "
                 "--no-gitconfig; (2) feature graphs over <= 3 custom nodes + builtins (flat, nested, repeated, shared, "
                 "cyclic, builtin-named sections) x 7 placements of the roots, observed through pairwise 'tournament' "
                 "probe options; (3) pairs of builtin feature flags on the command line / in [delta] / in custom "
-                "sections / GIT_CONFIG_PARAMETERS; (4) --no-gitconfig with and without --config. Every configuration "
+                "sections / GIT_CONFIG_PARAMETERS; (4) --no-gitconfig with and without --config; (5) DELTA_FEATURES (empty, '+', with and without '+') against "
+                "--features / [delta] features / GIT_CONFIG_PARAMETERS delta.features. Every configuration "
                 "is run in >= 3 fresh processes. non-trivial = at least two sources set a probe, or features are "
                 "enabled, or --no-gitconfig; distinct by configuration hash")
     thorough = not ctx.quick()
-    cfgs = family_sources(thorough) + family_graphs(thorough) + family_flags(thorough) + family_nogitconfig(thorough)
+    cfgs = (family_sources(thorough) + family_graphs(thorough) + family_flags(thorough) + family_nogitconfig(thorough)
+            + family_env(thorough))
     if thorough:
         cfgs += [random_cfg(ctx.rng) for _ in range(6000)]
     rep.exhaustive = dict(lattice_configs=len(cfgs), runs_per_config=ctx.n(3, 6))
